@@ -872,6 +872,33 @@ Proof.
   rewrite (ordinals_preserved _ _ _ Hs H). reflexivity.
 Qed.
 
+(* ------------------------------------------------------------------ the lite-block route *)
+
+Lemma route_keylist_has_key : forall peers key, In key (route_keylist peers key).
+Proof.
+  intros. unfold route_keylist. destruct (aget key peers); [apply in_or_app; right|]; left; reflexivity.
+Qed.
+
+(* whatever the route serves is the lite block of the stored block for a key list that contains
+   the requester's key (and, for a connected peer, the keys it registered) *)
+Lemma route_served : forall own k peers disk w,
+  route own k peers (Some disk) = RServed (Ok w) ->
+  exists key b l,
+    route_key own k = Some key /\ receive disk = Ok b /\
+    lite b (route_keylist peers key) = Ok l /\ w = wire l /\
+    In key (route_keylist peers key) /\
+    (forall kl, aget key peers = Some kl -> forall x, In x kl -> In x (route_keylist peers key)).
+Proof.
+  intros own k peers disk w H. unfold route in H.
+  destruct (route_key own k) as [key|] eqn:Ek; [|discriminate].
+  destruct (receive disk) as [b| |s] eqn:Er; try discriminate.
+  destruct (lite b (route_keylist peers key)) as [l| |s] eqn:El; cbn [bind] in H; try discriminate.
+  inversion H; subst. exists key, b, l.
+  split; [reflexivity|]. split; [reflexivity|]. split; [exact El|]. split; [reflexivity|]. split.
+  - apply route_keylist_has_key.
+  - intros kl Hk x Hx. unfold route_keylist. rewrite Hk. apply in_or_app. left. exact Hx.
+Qed.
+
 (* ------------------------------------------------------------------ the known classes *)
 
 (* the in-memory lite block: a sibling pair omitted as a whole (the loop merges it, and the merged
